@@ -833,7 +833,14 @@ func c12Gen(r *RNG, n int) c12Case {
 		cs := c12Case{Kind: "tmux"}
 		na := r.Range(1, 6)
 		for i := 0; i < na; i++ {
-			cs.Args = append(cs.Args, c12Text(r, n+i, 8))
+			switch r.Intn(6) {
+			case 0:
+				cs.Args = append(cs.Args, "") // an empty argument must survive as an empty word
+			case 1:
+				cs.Args = append(cs.Args, Pick(r, []string{"--query", "--prompt", "abc", "a.b-c_d", "x=y", "50%", "+s", "@home", "a,b:c/d"})) // shell-inert words
+			default:
+				cs.Args = append(cs.Args, c12Text(r, n+i, 8))
+			}
 		}
 		if r.Bool() {
 			cs.Args = append(cs.Args, Pick(r, []string{"--preview=cat {}", "--bind=ctrl-a:execute(echo 'x')", "--prompt=it's> ", "-q", "--header=$(id)"}))
@@ -841,6 +848,9 @@ func c12Gen(r *RNG, n int) c12Case {
 		return cs
 	case k < 18:
 		name := Pick(r, []string{"V", "V_a", "_x1", "FZF_VERIF_TEST", "v9_"})
+		if r.Chance(1, 6) {
+			return c12Case{Kind: "env", Name: name, Value: Pick(r, []string{"", "plain", "a.b-c", "x=y"})}
+		}
 		return c12Case{Kind: "env", Name: name, Value: c12Text(r, n, 12)}
 	default:
 		return c12GenLine(r, n)
